@@ -355,11 +355,61 @@ def bd_script(hist, sim, n0, death_zero):
     return out
 
 
-# ---------------------------------------------------------------------- one simulator call
-def call_sim(dendropy, case, rng):
-    """Build fresh arguments and call the real simulator.  Returns (tree, species_tree|None,
-    {id(gene leaf node): species taxon code})."""
-    from dendropy.model import birthdeath, coalescent
+# ---------------------------------------------------------------------- arguments, histories, one simulator call
+def _ns_labels(case):
+    if case.get("nslabels") is not None:
+        return list(case["nslabels"])
+    if case["api"] in ("uniform_pure_birth_tree", "pure_kingman_tree"):
+        return ["s%d" % (i + 1) for i in range(case["N"])]
+    return ["%s%d" % (case.get("nsprefix", "s"), i + 1) for i in range(case["ns"])]
+
+
+def _consecutive(G):
+    return [t + 1 for t, k in enumerate(G) for _ in range(k)]
+
+
+def build_args(dendropy, case):
+    """Fresh argument objects from the description `case` (a dict A of the objects a caller would hold)."""
+    api = case["api"]
+    A = {}
+    if api in ("birth_death_tree", "fast_birth_death_tree"):
+        if case.get("start"):
+            A["tree"] = start_tree(dendropy, case["start"])
+        elif case.get("ns", -1) >= 0 or case.get("nslabels") is not None:
+            A["ns"] = dendropy.TaxonNamespace(_ns_labels(case))
+    elif api in ("uniform_pure_birth_tree", "pure_kingman_tree"):
+        A["ns"] = dendropy.TaxonNamespace(_ns_labels(case))
+    else:
+        sp, sns = species_tree(dendropy, case["sp"])
+        A["sp"], A["sns"] = sp, sns
+        if case.get("edge_pop"):
+            for nd, p in zip(_preorder(sp), case["edge_pop"]):
+                nd.edge.pop_size = p
+        if api == "contained_coalescent_tree":
+            if case.get("gm") is None:
+                A["map"] = dendropy.TaxonNamespaceMapping.create_contained_taxon_mapping(
+                    containing_taxon_namespace=sns, num_contained=list(case["G"]))
+            else:
+                # the same gene taxa (labels, order) as create_contained_taxon_mapping gives for G, assigned as gm says
+                gm0 = _consecutive(case["G"])
+                dom = dendropy.TaxonNamespace()
+                md, cnt = {}, {}
+                for i, c0 in enumerate(gm0):
+                    cnt[c0] = cnt.get(c0, 0) + 1
+                    gt = dendropy.Taxon(label="%s %d" % (sns[c0 - 1].label, cnt[c0]))
+                    dom.append(gt)
+                    md[gt] = sns[case["gm"][i] - 1]
+                A["map"] = dendropy.TaxonNamespaceMapping(mapping_dict=md, domain_taxon_namespace=dom, range_taxon_namespace=sns)
+        elif case["strategy"] == "node_attribute":
+            for lf, k in zip([nd for nd in _preorder(sp) if not nd._child_nodes], case["G"]):
+                lf.num_genes = k
+    return A
+
+
+def invoke(dendropy, case, A, rng):
+    """Call the real simulator on the argument objects A.  Returns (tree, species_tree|None,
+    {id(gene leaf node): species taxon code according to the arguments as they are NOW})."""
+    from dendropy.model import birthdeath
     from dendropy.simulate import treesim
     api = case["api"]
     kw = {}
@@ -367,25 +417,18 @@ def call_sim(dendropy, case, rng):
         kw["rng"] = rng
     if api in ("birth_death_tree", "fast_birth_death_tree"):
         fn = treesim.birth_death_tree if api == "birth_death_tree" else birthdeath.fast_birth_death_tree
-        if case.get("start"):
-            kw["tree"] = start_tree(dendropy, case["start"])
-        elif case.get("ns", -1) >= 0:
-            kw["taxon_namespace"] = dendropy.TaxonNamespace(["%s%d" % (case.get("nsprefix", "s"), i + 1) for i in range(case["ns"])])
-        t = fn(birth_rate=case["birth"], death_rate=case["death"], num_extant_tips=case["N"], **kw)
-        return t, None, {}
+        if "tree" in A:
+            kw["tree"] = A["tree"]
+        elif "ns" in A:
+            kw["taxon_namespace"] = A["ns"]
+        return fn(birth_rate=case["birth"], death_rate=case["death"], num_extant_tips=case["N"], **kw), None, {}
     if api == "uniform_pure_birth_tree":
-        ns = dendropy.TaxonNamespace(["s%d" % (i + 1) for i in range(case["N"])])
-        return treesim.uniform_pure_birth_tree(ns, birth_rate=case["birth"], **kw), None, {}
+        return treesim.uniform_pure_birth_tree(A["ns"], birth_rate=case["birth"], **kw), None, {}
     if api == "pure_kingman_tree":
-        ns = dendropy.TaxonNamespace(["s%d" % (i + 1) for i in range(case["N"])])
-        return treesim.pure_kingman_tree(ns, pop_size=case["pop"], **kw), None, {}
+        return treesim.pure_kingman_tree(A["ns"], pop_size=case["pop"], **kw), None, {}
+    sp, sns = A["sp"], A["sns"]
     if api == "contained_coalescent_tree":
-        sp, sns = species_tree(dendropy, case["sp"])
-        if case.get("edge_pop"):
-            for nd, p in zip(_preorder(sp), case["edge_pop"]):
-                nd.edge.pop_size = p
-        m = dendropy.TaxonNamespaceMapping.create_contained_taxon_mapping(
-            containing_taxon_namespace=sns, num_contained=list(case["G"]))
+        m = A["map"]
         t = treesim.contained_coalescent_tree(sp, m, default_pop_size=case.get("pop", 1), **kw)
         scodes = proj.TaxonCodes(sns)
         lsp = {}
@@ -394,14 +437,8 @@ def call_sim(dendropy, case, rng):
                 lsp[id(nd)] = scodes.code(m[nd.taxon])
         return t, sp, lsp
     if api == "constrained_kingman_tree":
-        sp, sns = species_tree(dendropy, case["sp"])
-        if case.get("edge_pop"):
-            for nd, p in zip(_preorder(sp), case["edge_pop"]):
-                nd.edge.pop_size = p
         strat = case["strategy"]
         if strat == "node_attribute":
-            for lf, k in zip([nd for nd in _preorder(sp) if not nd._child_nodes], case["G"]):
-                lf.num_genes = k
             t, pt = treesim.constrained_kingman_tree(sp, gene_sampling_strategy="node_attribute", **kw)
         elif strat == "fixed_per_population":
             t, pt = treesim.constrained_kingman_tree(sp, gene_sampling_strategy="fixed_per_population",
@@ -417,6 +454,79 @@ def call_sim(dendropy, case, rng):
     raise ValueError("unknown api %r" % (api,))
 
 
+def apply_op(dendropy, case, A, op, k, keep):
+    """One step of an argument history, on the SAME objects: an earlier simulator call or a modification in place."""
+    o = op["op"]
+    if o == "call":
+        keep.append(invoke(dendropy, case, A, LoggingRandom(case["seed"] * 31 + 977 + k, "rng")))
+    elif o == "remap":
+        m, sns, p = A["map"], A["sns"], op["p"]
+        scodes = proj.TaxonCodes(sns)
+        new = dict((gt, sns[p[scodes.code(st) - 1] - 1]) for gt, st in list(m.items()))
+        how = op.get("how", "dict")
+        dom, rng_ns = m.domain_taxon_namespace, m.range_taxon_namespace
+        if how == "dict":
+            m.apply_mapping_dict(new, domain_taxon_namespace=dom, range_taxon_namespace=rng_ns)
+        elif how == "fn":
+            m.apply_mapping_fn(lambda t: new[t], domain_taxon_namespace=dom, range_taxon_namespace=rng_ns)
+        else:
+            for gt, st in new.items():
+                gt.c18_species = st
+            m.apply_mapping_attr_name("c18_species", domain_taxon_namespace=dom, range_taxon_namespace=rng_ns)
+    elif o == "edit_len":
+        for nd in _preorder(A["sp"]):
+            if nd.edge.length is not None:
+                nd.edge.length = nd.edge.length * op["f"]
+    elif o == "edit_pop":
+        for nd, q in zip(_preorder(A["sp"]), op["pops"]):
+            nd.edge.pop_size = q
+    elif o == "set_genes":
+        for lf, g in zip([nd for nd in _preorder(A["sp"]) if not nd._child_nodes], op["G"]):
+            lf.num_genes = g
+    elif o == "relabel":
+        for i, lab in op["labels"]:
+            if i < len(A["ns"]):
+                A["ns"][i].label = lab
+    elif o == "add_taxa":
+        for lab in op["labels"]:
+            A["ns"].new_taxon(lab)
+    else:
+        raise ValueError("unknown history op %r" % (o,))
+
+
+def current_desc(case, A):
+    """The description of the arguments as they are after the history: what a caller would build afresh."""
+    f = dict(case)
+    f["ops"] = []
+    for op in case.get("ops", ()):
+        o = op["op"]
+        if o == "remap":
+            gm0 = f["gm"] if f.get("gm") is not None else _consecutive(f["G"])
+            f["gm"] = [op["p"][c - 1] for c in gm0]
+        elif o == "edit_len":
+            f["sp"] = dict(f["sp"], len=[x * op["f"] for x in f["sp"]["len"]])
+        elif o == "edit_pop":
+            f["edge_pop"] = list(op["pops"])
+        elif o == "set_genes":
+            f["G"] = list(op["G"])
+            f["ntaxa"] = sum(op["G"])
+    if "ns" in A:
+        f["nslabels"] = [t.label for t in A["ns"]]      # read off the namespace object as it is now
+        if case["api"] in ("uniform_pure_birth_tree", "pure_kingman_tree"):
+            f["N"] = f["ntaxa"] = len(f["nslabels"])
+    return f
+
+
+def _hops(ops):
+    """label of an argument history: "reused" (an earlier simulator call on the same objects) and the modifications"""
+    names = (["reused"] if any(op["op"] == "call" for op in ops) else []) + [op["op"] for op in ops if op["op"] != "call"]
+    return "+".join(names)
+
+
+def call_sim(dendropy, case, rng):
+    return invoke(dendropy, case, build_args(dendropy, case), rng)
+
+
 def _preorder(tree):
     out, st = [], [tree._seed_node]
     while st:
@@ -426,8 +536,8 @@ def _preorder(tree):
     return out
 
 
-def one_run(dendropy, case, rng, gproxy, keep):
-    """One real execution.  Returns a dict with the raw results (objects kept alive in `keep`)."""
+def one_run(dendropy, thunk, rng, gproxy, keep):
+    """One real execution of thunk() -> (tree, sp, lsp).  Returns a dict with the raw results (objects kept alive in `keep`)."""
     patched = install_global(gproxy)
     # observe restarts (the only caller of Node.clear_child_nodes on the paths exercised here is the
     # restart-after-total-extinction block): used by the judge as a class discriminator only
@@ -441,7 +551,7 @@ def one_run(dendropy, case, rng, gproxy, keep):
     node_cls.clear_child_nodes = counting_clear
     py0 = _pystate()
     try:
-        kind, val, steps = budget.run_with_budget(lambda: call_sim(dendropy, case, rng), STEP_LIMIT)
+        kind, val, steps = budget.run_with_budget(thunk, STEP_LIMIT)
     finally:
         node_cls.clear_child_nodes = orig_clear
         restore_global(patched)
@@ -465,6 +575,7 @@ def run_twice(case):
     seed = case["seed"]
     via = case.get("via", "rng")
     runs, rngs, gps = [], [], []
+    hraised, cur = "", case
     for k in (0, 1):
         if case["kind"] == "script":
             rng = ScriptedRandom(case["script"], seed)
@@ -477,15 +588,31 @@ def run_twice(case):
             gp = LoggingRandom(seed, "global")
         # the second run sees another memory layout (object ids differ), as a re-run of a script would
         keep.append([object() for _ in range(1 + (seed + 3 * k) % 13)])
-        runs.append(one_run(dendropy, case, rng, gp, keep))
+        if k == 0:
+            # run 1: the argument objects with their history (earlier calls, modifications in place)
+            A = build_args(dendropy, case)
+            for j, op in enumerate(case.get("ops", ())):
+                patched = install_global(LoggingRandom(seed * 13 + j, "global"))
+                try:
+                    kind, val, _ = budget.run_with_budget(lambda: apply_op(dendropy, case, A, op, j, keep), STEP_LIMIT)
+                finally:
+                    restore_global(patched)
+                if kind != "ok":
+                    hraised = "%s:%s" % (op["op"], "StepBudgetExceeded" if kind == "hang" else type(val).__name__)
+            cur = current_desc(case, A)
+            runs.append(one_run(dendropy, lambda: invoke(dendropy, cur, A, rng), rng, gp, keep))
+        else:
+            # run 2: freshly built equal arguments (the current state of the arguments), equal generator state
+            runs.append(one_run(dendropy, lambda: call_sim(dendropy, cur, rng), rng, gp, keep))
         rngs.append(rng)
         gps.append(gp)
     trees = [r["tree"] for r in runs if r["tree"] is not None] + [r["sp"] for r in runs if r["sp"] is not None]
     scale = pick_scale(trees)
     prec = proj.rat(library_precision())
     ev = {"action": "Sim", "kind": case["kind"], "api": case["api"], "model": case["model"], "via": via,
-          "shape": case["shape"], "N": case.get("N", 0), "ntaxa": case.get("ntaxa", 0),
-          "scale": scale, "prec": prec[:2], "seed": seed}
+          "shape": case["shape"], "N": cur.get("N", 0), "ntaxa": cur.get("ntaxa", 0),
+          "scale": scale, "prec": prec[:2], "seed": seed,
+          "hops": _hops(case.get("ops", ())), "hraised": hraised}
     for k, r in enumerate(runs):
         s = str(k + 1)
         if r["tree"] is not None:
@@ -513,7 +640,7 @@ def run_twice(case):
         ev["ndec"] = len(hist)
         ev["desync"] = rngs[0].desync + rngs[1].desync
     else:
-        ev["cs"] = {"sim": "none", "N": 0, "start": "single", "sp": {"n": 0}, "G": []}
+        ev["cs"] = {"sim": "none", "N": 0, "start": "single", "sp": {"n": 0}, "gm": []}
         ev["decs"] = []
         ev["ndec"] = 0
         ev["desync"] = 0
